@@ -2,20 +2,9 @@ package main
 
 import (
 	"os"
-	"runtime/pprof"
 
 	"github.com/openfga/openfga/internal/verifh/c15"
 	"github.com/openfga/openfga/internal/verifh/core"
 )
 
-func main() {
-	if p := os.Getenv("VERIF_CPUPROFILE"); p != "" { // debugging aid
-		f, _ := os.Create(p)
-		_ = pprof.StartCPUProfile(f)
-		code := c15.Run(core.ParseOptions(os.Args[1:]))
-		pprof.StopCPUProfile()
-		f.Close()
-		os.Exit(code)
-	}
-	os.Exit(c15.Run(core.ParseOptions(os.Args[1:])))
-}
+func main() { os.Exit(c15.Run(core.ParseOptions(os.Args[1:]))) }
